@@ -357,7 +357,7 @@ class C17(Monitor):
 
     def on_step(self, ctx):
         s = ctx.s
-        for mech, msg, w in check_c17(s, ctx.builtin_only):
+        for mech, msg, w in check_c17(s, ctx.builtin_only or ctx.trips_builtin):
             ctx.violate("C17", mech, msg, **w)
         ctx.count("c17_states_checked")
         ctx.count("c17_assigned_requests", sum(1 for r in s.requests.values() if r.dispatched_vehicle is not None))
@@ -379,3 +379,12 @@ class C17(Monitor):
             vb = ev["sim_before"].vehicles.get(ev["vid"])
             if vb is not None and aname(vb) == "DispatchTrip":
                 ctx.count("c17_out_of_energy_en_route")
+        # instructions of the extra generator that reached a vehicle en route and left it where it was (refused)
+        for name, _t, ins, _sim in ctx.gen_log:
+            if not name.startswith("Hostile"):
+                continue
+            for i in ins:
+                p = ctx.prev.vehicles.get(i.vehicle_id)
+                v = s.vehicles.get(i.vehicle_id)
+                if p is not None and v is not None and aname(p) == "DispatchTrip" and aname(v) == "DispatchTrip" and v.vehicle_state.instance_id == p.vehicle_state.instance_id:
+                    ctx.count("c17_refused_instructions_en_route")
